@@ -6,13 +6,13 @@ cd /verif
 IDS=${@:-$(ls seeded)}
 if [ -n "$(git -C /repo status --porcelain --untracked-files=no)" ]; then echo "/repo has local changes: refusing"; exit 3; fi
 for ID in $IDS; do
-  D=/verif/seeded/$ID
+  D=/verif/seeded/$ID; CK=${ID%%.*}
   git -C /repo apply --check $D/patch.diff || { echo "$ID: patch does not apply"; continue; }
   git -C /repo apply $D/patch.diff
   T=$(cd /repo && timeout 900 /venv/bin/python -m pytest -q -p no:cacheprovider 2>&1 | tail -1)
   S=$(mktemp -d); cp $D/demonstration.py $S/demo.py
   (cd $S && PYTHONPATH=/repo timeout 600 /venv/bin/python demo.py >/dev/null 2>&1); DW=$?
-  OUT=$(VERIF_TASK_LIMIT_S=600 timeout 1800 bin/check $ID 2>&1); RC=$?
+  OUT=$(VERIF_TASK_LIMIT_S=600 timeout 1800 bin/check $CK 2>&1); RC=$?
   R=$(echo "$OUT" | grep '^VIOLATION' | grep -v no-failing | head -1 | sed 's/.*replay=\([^ ]*\).*/\1/'); RR=none
   if [ -n "$R" ]; then timeout 600 bin/check --replay "$R" >/dev/null 2>&1; RR=$?; fi
   git -C /repo checkout -- .
@@ -27,7 +27,7 @@ import json, sys
 ID, T, DW, DO, RC, NV, NI, RR, RB = sys.argv[1:]
 d = dict(property=ID, applied_with='git -C /repo apply /verif/seeded/%s/patch.diff' % ID, undone_with='git -C /repo checkout -- .',
          repository_tests_with_change=T, demonstration_exit_with_change=int(DW), demonstration_exit_without_change=int(DO),
-         check_cmd='bin/check %s (quick tier)' % ID, check_exit_with_change=int(RC), violation_lines=int(NV), violations_without_failing_input=int(NI),
+         check_cmd='bin/check %s (quick tier)' % ID.split('.')[0], check_exit_with_change=int(RC), violation_lines=int(NV), violations_without_failing_input=int(NI),
          replay_exit_with_change=RR, replay_exit_on_unchanged_tree=RB,
          caught=(int(RC) == 1 and int(NV) > 0), obligations=open('/verif/seeded/%s/caught_by.txt' % ID).read().splitlines())
 json.dump(d, open('/verif/seeded/%s/confirmed.json' % ID, 'w'), indent=1)
